@@ -136,8 +136,16 @@ def run_scenarios(ck, sc, site_of=None):
     return obs
 
 
-def composer_conformance(ck, sc):
+def composer_conformance(ck, sc, limit=None):
     """layer 2: lock-step TraceComposer; returns the list of drift descriptions."""
+    # the trace specification runs on one TLC worker: bound the number of programs
+    # (evenly spread over the scenario list, seeded offset) -- the budget is stated in the evidence
+    limit = limit or (260 if ck.tier == "quick" else 900)
+    if len(sc) > limit:
+        step = len(sc) / float(limit)
+        off = vlib.seed() % max(1, int(step))
+        sc = [sc[min(len(sc) - 1, int(off + i * step))] for i in range(limit)]
+        ck.notes.append("TraceComposer ran on %d of the programs (evenly spread sample)" % len(sc))
     d = vlib.workdir(ck.pid + "tc")
     inp = "\n".join(json.dumps({"id": s["id"], "ops": s["ops"]}) for s in sc) + "\n"
     out = vlib.harness("composer_trace", [], stdin=inp, timeout=3000)
